@@ -206,6 +206,33 @@ fn main() {
         }
     }
     round_trips += decoded;
+    // ---- (4) "with up to the audit-map capacity of connections in flight": the maps the kernel creates from the object's
+    // own declaration (type, max_entries, flags) hold 150 records written from one CPU (as a single-threaded client's
+    // connects are) until they are picked up
+    let mut pending_ok = 0u64;
+    {
+        unsafe {
+            let mut set: libc::cpu_set_t = std::mem::zeroed();
+            libc::CPU_SET(0, &mut set);
+            libc::sched_setaffinity(0, std::mem::size_of::<libc::cpu_set_t>(), &set);
+        }
+        let n = 150u16;
+        let val = vec![0x5au8; 20];
+        for i in 0..n {
+            if !audit.update(&world::audit_key(30000 + i), &val) {
+                vcommon::result::machinery("cannot write into the kernel audit_map");
+            }
+        }
+        let missing: Vec<u16> = (0..n).filter(|i| audit.lookup(&world::audit_key(30000 + i)).is_none()).collect();
+        pending_ok = (n as usize - missing.len()) as u64;
+        if !missing.is_empty() {
+            res.violation("audit-map-loses-pending-records", &format!("{} of {n} records written from one CPU into the kernel's audit_map (created from the program's own declaration) were gone before anyone picked them up (declared capacity 200); first missing: source port {}", missing.len(), 30000 + missing[0]), json!({"family": "pending-records-in-the-kernel-map", "records": n}));
+        }
+        for i in 0..n {
+            audit.delete(&world::audit_key(30000 + i));
+        }
+    }
+    res.cov("pending_records_kept_by_the_kernel_map", pending_ok);
     res.cov("states", *stats.get("states").unwrap_or(&0));
     res.cov("transitions", *stats.get("transitions").unwrap_or(&0));
     res.cov("traces_validated_against_impl", round_trips);
@@ -218,10 +245,11 @@ fn main() {
     res.cov("helper_granularity_steps", *stats.get("fine_steps").unwrap_or(&0));
     res.cov("helper_granularity_preemption_bound_reached", *stats.get("fine_max_preemptions").unwrap_or(&0));
     res.cov("bound_socket_connects", *stats.get("bound_socket_connects").unwrap_or(&0));
+    res.cov("handoff_update_failure_connects", *stats.get("handoff_update_failure_connects").unwrap_or(&0));
     res.cov("connects_not_judged_policy_changed_between_hooks", *stats.get("connects_not_judged_policy_changed_between_hooks").unwrap_or(&0));
     res.cov("audit_patterns_decoded_by_the_real_agent_code", decoded);
     res.cov("exhaustive", true);
-    res.cov("rule", "configurations: policy in {all three endpoints, WireServer only, WireServer+HostGA, (thorough) none} x pairs (thorough: also triples) of threads from {agent main thread, an agent worker thread, uid0/gid0, uid0/gid1000, uid1000/gid0, uid1000/gid1000, a second thread of that process} x 1 (thorough: 2) connects each to {WS:80, WS:32526, IMDS:80, WS:81, 10.0.0.1:80} x {TCP, UDP}; thorough adds one policy toggle and one connect aborted between the hooks as environment events; plus every policy x identity x destination with the caller's socket bound to a local address (10.0.0.4) before the connect; per configuration BFS over all interleavings of connect4 / tcp_connect invocations (hook-atomic), deduplicated on (map contents, thread program counters, in-flight ctx, policy); plus, for the two-thread configurations without environment events, a stateless preemption-bounded DFS (bound 2, thorough 3) in which every helper call of a hook is a scheduling point (hooks run as coroutines and are switched before each helper executes), every schedule re-executed from the initial maps; model traces are bound to the implementation by the kernel-map round trips (policy/skip bytes written by the real Rust code are the model's input, audit bytes produced by the model are decoded by the real Rust code)".to_string());
+    res.cov("rule", "configurations: policy in {all three endpoints, WireServer only, WireServer+HostGA, (thorough) none} x pairs (thorough: also triples) of threads from {agent main thread, an agent worker thread, uid0/gid0, uid0/gid1000, uid1000/gid0, uid1000/gid1000, a second thread of that process} x 1 (thorough: 2) connects each to {WS:80, WS:32526, IMDS:80, WS:81, 10.0.0.1:80} x {TCP, UDP}; thorough adds one policy toggle and one connect aborted between the hooks as environment events; plus every policy x identity x destination with the caller's socket bound to a local address (10.0.0.4) before the connect, and once more with the update of the hand-off map failing (-ENOMEM / -EBUSY): still diverted; per configuration BFS over all interleavings of connect4 / tcp_connect invocations (hook-atomic), deduplicated on (map contents, thread program counters, in-flight ctx, policy); plus, for the two-thread configurations without environment events, a stateless preemption-bounded DFS (bound 2, thorough 3) in which every helper call of a hook is a scheduling point (hooks run as coroutines and are switched before each helper executes), every schedule re-executed from the initial maps; model traces are bound to the implementation by the kernel-map round trips (policy/skip bytes written by the real Rust code are the model's input, audit bytes produced by the model are decoded by the real Rust code; 150 pending records written from one CPU must all be kept by the kernel map created from the object's declaration)".to_string());
     res.sample(json!({"policy_entries_written_by_the_agent_code": input.lines().collect::<Vec<_>>()}));
     if let Some(a) = audits.first() {
         res.sample(json!({"audit_pattern_from_the_model": a}));
